@@ -315,4 +315,17 @@ def matchSk : Nat → Sk → Array RTok → Nat → List Nat
 /-- the plugin sends the tokens of a real document without its white-space-only character data -/
 def accepts (sk : Sk) (inp : List RTok) : Bool := (matchSk (sk.size + 1) sk inp.toArray 0).contains inp.length
 
+/-- what the plugin sends of ONE token of a document (`doc_tokens` in tools/props/c12.py): the element / attribute
+    NAMES of a tag, nothing of a comment, `T` for character data that is not white space only, and nothing at all for
+    white-space-only character data -/
+def rshape : Tok → Option RTok
+  | .decl => some .decl
+  | .stag n as e => some (.stag n (as.map (·.1)) e)
+  | .etag n => some (.etag n)
+  | .comment _ => some .comment
+  | .chars b => if isBlank b then none else some (.chars false)
+
+/-- the shape of a document: what `accepts` is run on (round 4; `C12_matcher_sound`) -/
+def shape (toks : List Tok) : List RTok := toks.filterMap rshape
+
 end Gama.XmlDoc
